@@ -149,6 +149,53 @@ AsnEnc1(e) == AsnEnc3(e, EncWith(Pk(e), e.ks, 1, MsgOf(e), "c1c3c2", FALSE))
 AsnDec2(e, r) == Stay /\ tlast' = Verdict(e, DecAllowed(e, r), "asn1.dec." \o e.fault, DecKind(e, r))
 AsnDec1(e) == AsnDec2(e, DecryptDer(BFromBE(e.d), e.der))
 
+\* ---------------- C11: group law and field arithmetic (verdicts on denotations / residues) ----------------
+MontOne == RModP
+PairClass(a, b) == IF a = Inf /\ b = Inf THEN "O+O" ELSE IF a = Inf THEN "O+Q" ELSE IF b = Inf THEN "P+O"
+                   ELSE IF a = b THEN "P=Q" ELSE IF a = C!Neg(b) THEN "P=-Q" ELSE "generic"
+OutOK(e, expected) == e.outcome = "ok" /\ JCanon(e.out) /\ Denote(e.out) = expected
+EcKind(e) == IF Crash(e) THEN e.outcome ELSE "wrong-point"
+EcAdd3(e, a, b) == Stay /\ tlast' = Verdict(e, OutOK(e, C!PAdd(a, b)), "add." \o PairClass(a, b) \o (IF a = b /\ e.p # e.q THEN ".diffZ" ELSE ""), EcKind(e))
+EcAdd1(e) == IF ValidInput(e.p) /\ ValidInput(e.q) THEN EcAdd3(e, Denote(e.p), Denote(e.q)) ELSE Stay /\ tlast' = Verdict(e, ~Crash(e), "add.invalid-input", e.outcome)
+EcUn2(e, a, expected, class) == Stay /\ tlast' = Verdict(e, OutOK(e, expected), class, EcKind(e))
+EcDbl1(e) == IF ValidInput(e.p) THEN EcUn2(e, Denote(e.p), C!Dbl(Denote(e.p)), IF Denote(e.p) = Inf THEN "dbl.O" ELSE "dbl") ELSE Stay /\ tlast' = Verdict(e, ~Crash(e), "dbl.invalid-input", e.outcome)
+EcNeg1(e) == IF ValidInput(e.p) THEN EcUn2(e, Denote(e.p), C!Neg(Denote(e.p)), "neg") ELSE Stay /\ tlast' = Verdict(e, ~Crash(e), "neg.invalid-input", e.outcome)
+KClass(k) == IF BFromBE(k) = BZero THEN "k=0" ELSE IF BFromBE(k) = <<1>> THEN "k=1" ELSE IF BFromBE(k) = NN THEN "k=n" ELSE IF BGeq(BFromBE(k), NN) THEN "k>n" ELSE IF BFromBE(k) = BSub(NN, <<1>>) THEN "k=n-1" ELSE "k<n"
+EcSmul1(e) == IF ValidInput(e.p) THEN EcUn2(e, Denote(e.p), Mul(e.k, Denote(e.p)), "smul." \o KClass(e.k) \o (IF JZ(e.p) = MontOne THEN "" ELSE ".jacobian")) ELSE Stay /\ tlast' = Verdict(e, ~Crash(e), "smul.invalid-input", e.outcome)
+EcGmul1(e) == EcUn2(e, G, Mul(e.k, G), "gmul." \o KClass(e.k))
+EcAffine1(e) == IF ValidInput(e.p) /\ Denote(e.p) # Inf THEN Stay /\ tlast' = Verdict(e, OutOK(e, Denote(e.p)) /\ JZ(e.out) = MontOne, "affine", EcKind(e))
+                ELSE Stay /\ tlast' = Verdict(e, ~Crash(e), "affine.O-or-invalid", e.outcome)
+EcValid1(e) == Stay /\ tlast' = Verdict(e, e.outcome = "ok" /\ (e.valid = 1) = (JZ(e.p) = BZero \/ (JCanon(e.p) /\ JacOnCurve(e.p))),
+                                         IF JZ(e.p) = BZero THEN "valid.O" ELSE IF JCanon(e.p) /\ JacOnCurve(e.p) THEN "valid.on" ELSE "valid.off", IF Crash(e) THEN e.outcome ELSE "wrong-validity")
+\* field ops on stored (Montgomery) representatives; operands canonical
+A(e) == BFromBE(e.a)
+Bv(e) == BFromBE(e.b)
+FpExpected(e) == IF e.f = "add" THEN BAddMod(A(e), Bv(e), PP) ELSE IF e.f = "sub" THEN BSubMod(A(e), Bv(e), PP)
+                 ELSE IF e.f = "mul" THEN BMulMod(BMulMod(A(e), Bv(e), PP), RInvP, PP)
+                 ELSE IF e.f = "neg" THEN BSubMod(BZero, A(e), PP) ELSE IF e.f = "dbl" THEN BAddMod(A(e), A(e), PP) ELSE IF e.f = "tpl" THEN BMulMod(A(e), <<3>>, PP)
+                 ELSE IF e.f = "to_mont" THEN ToMont(A(e)) ELSE IF e.f = "from_mont" THEN FromMont(A(e))
+                 ELSE IF e.f = "inv" THEN ToMont(C!FInv(FromMont(A(e))))
+                 ELSE IF e.f = "pow" THEN ToMont(BPowMod(FromMont(A(e)), Bv(e), PP))
+                 ELSE <<"?">>
+FpSqrtOK(e) == IF C!Sqrt(FromMont(A(e)))[1] = "none" THEN e.outcome = "err"
+               ELSE e.outcome = "ok" /\ BLt(BFromBE(e.out), PP) /\ C!FSqr(FromMont(BFromBE(e.out))) = FromMont(A(e))
+FpClass(e) == "fp." \o e.f \o "." \o e.cls
+Fp1(e) == IF ~(BLt(A(e), PP) /\ BLt(Bv(e), PP)) /\ e.f # "pow" THEN Stay /\ tlast' = Verdict(e, ~Crash(e), "fp.noncanonical-input", e.outcome)
+          ELSE IF e.f = "sqrt" THEN Stay /\ tlast' = Verdict(e, FpSqrtOK(e), FpClass(e), IF Crash(e) THEN e.outcome ELSE "wrong-sqrt")
+          ELSE Stay /\ tlast' = Verdict(e, e.outcome = "ok" /\ BFromBE(e.out) = FpExpected(e), FpClass(e), IF Crash(e) THEN e.outcome ELSE "wrong-residue")
+FnExpected(e) == IF e.f = "add" THEN BAddMod(A(e), Bv(e), NN) ELSE IF e.f = "sub" THEN BSubMod(A(e), Bv(e), NN)
+                 ELSE IF e.f = "mul" THEN BMulMod(A(e), Bv(e), NN) ELSE IF e.f = "pow" THEN BPowMod(A(e), Bv(e), NN) ELSE <<"?">>
+Fn1(e) == IF ~(BLt(A(e), NN) /\ (BLt(Bv(e), NN) \/ e.f = "pow")) THEN Stay /\ tlast' = Verdict(e, ~Crash(e), "fn.noncanonical-input", e.outcome)
+          ELSE Stay /\ tlast' = Verdict(e, e.outcome = "ok" /\ BFromBE(e.out) = FnExpected(e), "fn." \o e.f \o "." \o e.cls, IF Crash(e) THEN e.outcome ELSE "wrong-residue")
+\* fixed-base table walk: session state = [base |-> entry(row,1), prev |-> entry(row,b-1)] as affine points
+TabPt(e) == <<FromMont(BFromBE(e.x)), FromMont(BFromBE(e.y))>>
+TabExpected(e) == IF e.row = 0 /\ e.b = 1 THEN G
+                  ELSE IF e.b = 1 THEN Mul(<<1, 0>>, tst.kx.base)           \* [256] entry(row-1, 1)
+                  ELSE C!PAdd(tst.kx.prev, tst.kx.base)
+Tab2(e, x) == /\ tlast' = Verdict(e, BLt(BFromBE(e.x), PP) /\ BLt(BFromBE(e.y), PP) /\ TabPt(e) = x, IF e.b = 1 THEN "table.row-base" ELSE "table.entry", "wrong-table-entry")
+              /\ tst' = [kx |-> [base |-> IF e.b = 1 THEN x ELSE tst.kx.base, prev |-> x]]          \* resync on the specification's value
+Tab1(e) == Tab2(e, TabExpected(e))
+
 Step(e) == IF e.op = "sm2.verify" THEN Ver1(e)
            ELSE IF e.op = "sm2.verify_digest" THEN VerD1(e)
            ELSE IF e.op \in {"sm2.sign", "sm2.sign_digest"} THEN Sign1(e)
@@ -160,6 +207,16 @@ Step(e) == IF e.op = "sm2.verify" THEN Ver1(e)
            ELSE IF e.op = "codec.asn1_enc" THEN AsnEnc1(e)
            ELSE IF e.op = "codec.asn1_dec" THEN AsnDec1(e)
            ELSE IF e.op = "kx.step1" THEN Kx1(e)
+           ELSE IF e.op = "ec.add" THEN EcAdd1(e)
+           ELSE IF e.op = "ec.dbl" THEN EcDbl1(e)
+           ELSE IF e.op = "ec.neg" THEN EcNeg1(e)
+           ELSE IF e.op = "ec.smul" THEN EcSmul1(e)
+           ELSE IF e.op = "ec.gmul" THEN EcGmul1(e)
+           ELSE IF e.op = "ec.affine" THEN EcAffine1(e)
+           ELSE IF e.op = "ec.valid" THEN EcValid1(e)
+           ELSE IF e.op = "fp.op" THEN Fp1(e)
+           ELSE IF e.op = "fn.op" THEN Fn1(e)
+           ELSE IF e.op = "ec.table" THEN Tab1(e)
            ELSE IF e.op = "kx.step2" THEN Kx2(e)
            ELSE IF e.op = "kx.step3" THEN Kx3(e)
            ELSE IF e.op = "kx.step4" THEN Kx4(e)
